@@ -11,7 +11,7 @@ import z3
 from . import values as V
 from . import logic
 from .values import (Value, VNone, NONE, VBool, Num, VObj, VStr, VTuple, VOpt, VOpaque, VFunc, SList,
-                     Unsupported)
+                     Unsupported, VDyn)
 from .state import State
 
 
@@ -307,6 +307,9 @@ class Exec:
             return [(VOpaque(base.tag + "." + attr), st)]
         if isinstance(base, RecRef):
             raise Unsupported("attribute %s of dict field" % attr)
+        r = self.ctx.contracts.get_attr_other(self, base, attr, st, lineno)
+        if r is not None:
+            return r
         raise Unsupported("attribute %s of %r (line %d)" % (attr, base, lineno))
 
     def e_Subscript(self, node, st):
@@ -340,8 +343,16 @@ class Exec:
             return [(Exc("KeyError", lineno, key), st)]
         base = self.deref(base, st)
         if isinstance(base, SList):
+            if isinstance(idx, VDyn):
+                outs, ok = self.raise_if(st, z3.Not(z3.Or(idx.tag == V.T_INT, idx.tag == V.T_BOOL)), "TypeError", lineno,
+                                         "list index is not an integer")
+                if ok is not None:
+                    outs.extend(self.subscript(base, Num(z3.ToInt(idx.num)), ok, lineno))
+                return outs
             if not isinstance(idx, Num):
                 raise Unsupported("list index %r" % (idx,))
+            if not idx.is_int:
+                return [(Exc("TypeError", lineno, "list index is a float"), st)]
             i = self.norm_index(base, idx)
             outs, ok = self.raise_if(st, z3.Or(i < 0, i >= base.len), "IndexError", lineno)
             if ok is not None:
@@ -546,6 +557,14 @@ class Exec:
                     aa, bb = (x.val, b) if k == 0 else (a, x.val)
                     outs.extend(self.binop(op, aa, bb, ok, lineno))
                 return outs
+        for k, x in enumerate((a, b)):
+            if isinstance(x, VDyn):
+                outs, ok = self.raise_if(st, z3.Not(x.is_num()), "TypeError", lineno, "arithmetic on a non-number")
+                if ok is not None:
+                    xn = self.dyn_num(x, ok)
+                    aa, bb = (xn, b) if k == 0 else (a, xn)
+                    outs.extend(self.binop(op, aa, bb, ok, lineno))
+                return outs
         if isinstance(a, VOpaque) or isinstance(b, VOpaque):
             return [(VOpaque("binop"), st)]
         if isinstance(a, SList) and isinstance(b, SList) and isinstance(op, ast.Add):
@@ -638,6 +657,14 @@ class Exec:
                     aa, bb = (x.val, b) if k == 0 else (a, x.val)
                     outs.extend(self.compare(op, aa, bb, ok, lineno))
                 return outs
+        for k, x in enumerate((a, b)):
+            if isinstance(x, VDyn):
+                outs, ok = self.raise_if(st, z3.Not(x.is_num()), "TypeError", lineno, "ordering a non-number")
+                if ok is not None:
+                    xn = self.dyn_num(x, ok)
+                    aa, bb = (xn, b) if k == 0 else (a, xn)
+                    outs.extend(self.compare(op, aa, bb, ok, lineno))
+                return outs
         if isinstance(op, ast.Lt):
             return [(V.num_lt(a, b), st)]
         if isinstance(op, ast.LtE):
@@ -647,6 +674,10 @@ class Exec:
         if isinstance(op, ast.GtE):
             return [(V.num_le(b, a), st)]
         raise Unsupported("comparison %s" % type(op).__name__)
+
+    def dyn_num(self, x, st):
+        """numeric view of a dynamic value whose tag is known (on this path) to be numeric"""
+        return Num(x.num)
 
     def eq(self, a, b):
         if isinstance(a, (VOpaque,)) or isinstance(b, (VOpaque,)):
@@ -730,6 +761,18 @@ class Exec:
                 return self.ctx.contracts.reduce_genexp(self, name, node, st)
             if name == "super":
                 return [(VOpaque("super"), st)]
+            if name in ("isinstance", "hasattr", "callable") and node.args:
+                outs = []
+                for v, s in self.eval(node.args[0], st):
+                    if isinstance(v, Exc):
+                        outs.append((v, s))
+                    else:
+                        outs.append((self.type_test(name, self.deref(v, s), node, s), s))
+                return outs
+            if name in st.loc and isinstance(st.loc[name], (VDyn,)):
+                if node.args or node.keywords:
+                    raise Unsupported("call of a user callable with arguments (line %d)" % lineno)
+                return self.ctx.contracts.consult(self, st.loc[name], "call", st, node)
             outs = []
             for vals, s in self.eval_seq(node.args, st):
                 if isinstance(vals, Exc):
@@ -752,6 +795,7 @@ class Exec:
                     if isinstance(vals, Exc):
                         outs.append((vals, s))
                     else:
+                        self.ctx.super_call_node = node
                         outs.extend(self.ctx.contracts.call_super(self, f.attr, vals, s, lineno))
                 return outs
             outs = []
@@ -773,6 +817,60 @@ class Exec:
             return outs
         raise Unsupported("call shape at line %d" % lineno)
 
+    def type_test(self, name, v, node, st):
+        """isinstance / hasattr / callable on a value -> VBool"""
+        if name == "callable":
+            if isinstance(v, VDyn):
+                return VBool(v.tag == V.T_FUNC)
+            if isinstance(v, VFunc):
+                return VBool(True)
+            return VBool(False)
+        if name == "hasattr":
+            a = node.args[1]
+            if not (isinstance(a, ast.Constant) and isinstance(a.value, str)):
+                raise Unsupported("hasattr with a non-constant name")
+            if a.value == "__next__":
+                if isinstance(v, VDyn):
+                    return VBool(v.tag == V.T_GEN)
+                return VBool(False)
+            r = self.ctx.contracts.has_attr(self, v, a.value, st)
+            if r is not None:
+                return r
+            raise Unsupported("hasattr(%r, %r) at line %d" % (v, a.value, node.lineno))
+        # isinstance
+        t = node.args[1]
+        names = [_type_name(e) for e in t.elts] if isinstance(t, ast.Tuple) else [_type_name(t)]
+        if isinstance(v, VDyn):
+            cs = []
+            for n in names:
+                if n == "int":
+                    cs.append(z3.Or(v.tag == V.T_INT, v.tag == V.T_BOOL))
+                elif n == "float":
+                    cs.append(v.tag == V.T_FLOAT)
+                elif n == "str":
+                    cs.append(v.tag == V.T_STR)
+                elif n == "bool":
+                    cs.append(v.tag == V.T_BOOL)
+                else:
+                    r = self.ctx.contracts.isinstance_dyn(self, v, n, st)
+                    if r is None:
+                        raise Unsupported("isinstance(dyn, %s)" % n)
+                    cs.append(r)
+            return VBool(z3.Or(*cs) if len(cs) > 1 else cs[0])
+        if isinstance(v, Num):
+            ok = any((n == "int" and v.is_int) or (n == "float" and not v.is_int) for n in names)
+            return VBool(ok)
+        if isinstance(v, VStr):
+            return VBool("str" in names)
+        if isinstance(v, VBool):
+            return VBool("bool" in names or "int" in names)
+        if isinstance(v, VNone):
+            return VBool(False)
+        r = self.ctx.contracts.isinstance_other(self, v, names, st)
+        if r is not None:
+            return r
+        raise Unsupported("isinstance(%r, %s) at line %d" % (v, names, node.lineno))
+
     def builtin(self, name, args, kw, st, node):
         lineno = node.lineno
         if name == "len":
@@ -785,6 +883,10 @@ class Exec:
             if r is not None:
                 return r
             raise Unsupported("len of %r" % (v,))
+        if name == "next" and len(args) == 1 and isinstance(args[0], VDyn):
+            return self.ctx.contracts.consult(self, args[0], "next", st, node)
+        if name == "type" and len(args) == 1:
+            return [(VOpaque("type"), st)]
         if name == "float" and len(args) == 1 and isinstance(args[0], VStr):
             if z3.is_int_value(args[0].t) and V.str_of_code(args[0].t.as_long()) == "inf":
                 return [(Num(z3.RealVal(0), inf=z3.BoolVal(True)), st)]
@@ -794,6 +896,8 @@ class Exec:
                 raise Unsupported("enumerate of %r" % (base,))
             at = base.at
             return [(SList(base.len, lambda i: VTuple([Num(i), at(i)]), ("tuple", [("num", "int"), base.ekind])), st)]
+        if name == "bool" and len(args) == 1:
+            return [(VBool(V.truth(self.deref(args[0], st))), st)]
         if name == "str" or name == "id" or name == "repr":
             return [(VOpaque(name), st)]
         if name == "print":
@@ -1162,6 +1266,9 @@ class Exec:
             return outs
         if isinstance(base, VOpaque):
             return [Outcome("next", st)]
+        r = self.ctx.contracts.set_attr_other(self, base, attr, v, st, lineno)
+        if r is not None:
+            return r
         raise Unsupported("attribute assignment on %r (line %d)" % (base, lineno))
 
     def set_item(self, base, idx, v, st, tgt, lineno):
